@@ -294,6 +294,13 @@ def check_tree(case, R):
     pos = layout(p, lens, bank)
     zero = ":zero-length-branch" if any(
         all(pos[a] == pos[b] for a, b in zip(br, br[1:])) for br in ref.branches(p)) else ""
+    # two branches leaving the same node and ending at the same point: a branch list without its order does not say which end
+    # node is whose (specification tie for the permuted-list calls only)
+    ends = {}
+    for br in ref.branches(p):
+        ends.setdefault(br[0], []).append(pos[br[-1]])
+    pairing_tie = any(ref.dist(a, b) < 1e-3 for v in ends.values() for a, b in itertools.combinations(v, 2))
+    kept = []
     for rtype, ops in MENUS[menu]:
         if rtype == "parity":
             rtype = (1, 3)[sum(p) % 2]
@@ -305,17 +312,21 @@ def check_tree(case, R):
             for d in ops[key]:
                 nm = f"IsometricResampler({d}{'' if adjust else ', adjust_last_gap=False'}) {geo}"
                 kl = "iso" if adjust else "iso-nogap"
-                ok, res = call(R, kl, sfx, nm, lambda: IsometricResampler(d, adjust_last_gap=adjust)(t))
+                ok, res = call(R, kl, sfx, nm, lambda: IsometricResampler(d, adjust_last_gap=adjust)(t), kept)
                 if ok:
                     judge_tree(R, nm, kl, p, pts, res, kl, d)
         for m in ops["lin"]:
             nm = f"Resampler(BranchLinearResampler({m})) {geo}"
-            ok, res = call(R, "lin", sfx, nm, lambda: Resampler(BranchLinearResampler(m))(t))
+            ok, res = call(R, "lin", sfx, nm, lambda: Resampler(BranchLinearResampler(m))(t), kept)
             if ok:
                 judge_tree(R, nm, "lin", p, pts, res, "lin", m)
         for nm in ops["ident"]:
-            if nm in (ROT, REV, ISOROT) and max(len(c) for c in ref.children(p)) < 2:
-                continue  # no list with two branches: same call as ASM
+            if nm in (ROT, REV, ISOROT):
+                if max(len(c) for c in ref.children(p)) < 2:
+                    continue  # no list with two branches: same call as ASM
+                if pairing_tie:
+                    R.skip("permuted-branch-list:coincident-branch-ends")
+                    continue
 
             def permuted(nm=nm):
                 # the order of the branches remembered for a node carries no meaning: the assembler pairs them with the
@@ -326,7 +337,7 @@ def check_tree(case, R):
                 return BranchTreeAssembler()(bt)
 
             fn = {ASM: lambda: BranchTreeAssembler()(BranchTree.from_tree(t)), RID: lambda: Resampler(lambda br: br)(t)}.get(nm, permuted)
-            ok, res = call(R, "identity", sfx, f"{nm} {geo}", fn)
+            ok, res = call(R, "identity", sfx, f"{nm} {geo}", fn, kept)
             if ok:
                 if nm == ISOROT:
                     judge_tree(R, f"{nm} {geo}", "iso", p, pts, res, "iso", 1.0)
@@ -334,14 +345,33 @@ def check_tree(case, R):
                     judge_tree(R, f"{nm} {geo}", "identity", p, pts, res, "id", None)
         for w in ops["win"]:
             nm = f"TreeSmoother({w}) {geo}"
-            ok, res = call(R, "TreeSmoother", sfx, nm, lambda: TreeSmoother(w)(t))
+            ok, res = call(R, "TreeSmoother", sfx, nm, lambda: TreeSmoother(w)(t), kept)
             if ok:
                 judge_smooth_tree(R, nm, p, pts, t, res)
+    recheck_kept(R, kept)
 
 
-def call(R, what, suffix, ctx, fn):
+def content(v):
+    """Observable content of a result (tree or branch) as bytes, for 'did it change later' comparisons."""
+    if hasattr(v, "xyzr") and not hasattr(v, "ndata"):
+        return ("branch", np.asarray(v.xyzr(), dtype=np.float64).tobytes(), v.id().tobytes(), v.pid().tobytes())
+    return build.snapshot(v)
+
+
+def recheck_kept(R, kept):
+    """Every result obtained in this case still has the content it was returned with."""
+    for nm, v, snap in kept:
+        R.check(content(v) == snap, "result-changed-by-later-calls", lambda: f"{nm}: the returned object changed after later library calls",
+                "result-changed-by-later-calls")
+    for nm, v, _ in kept[-2:]:
+        R.retain(nm.split(" ")[0], lambda v=v: content(v))
+
+
+def call(R, what, suffix, ctx, fn, kept=None):
     """R.impl with a klass that also names the input class (suffix) the exception was seen on."""
     ok, v = R.attempt(fn)
+    if ok and kept is not None:
+        kept.append((ctx, v, content(v)))
     if not ok:
         where = ""
         for fr in reversed(traceback.extract_tb(v.__traceback__)):
@@ -408,6 +438,32 @@ def read_branch(b):
     return [((float(row[0]), float(row[1]), float(row[2])), float(row[3])) for row in a]
 
 
+def judge_branch_op(R, op, param, P, res, what):
+    """op in lin / iso / iso-nogap / smooth; P = input polyline [(xyz, r)]; res = returned Branch."""
+    Q = read_branch(res)
+    if op == "smooth":
+        if not R.check(len(Q) == len(P), "smooth:node-count", f"{what}: {len(P)} -> {len(Q)}", "smooth-branch:node-count"):
+            return
+        n = len(P)
+        R.check([int(i) for i in res.id().tolist()] == list(range(n)) and [int(i) for i in res.pid().tolist()] == list(range(-1, n - 1)),
+                "smooth:connectivity", lambda: f"{what}: id/pid {res.id().tolist()} {res.pid().tolist()}", "smooth-branch:connectivity")
+        R.check(all(abs(a[1] - b[1]) <= 1e-6 for a, b in zip(P, Q)), "smooth:radii", lambda: f"{what}: radii {[b[1] for b in Q]}", "smooth-branch:radii")
+        R.check(ref.dist(P[0][0], Q[0][0]) <= 1e-6 and ref.dist(P[-1][0], Q[-1][0]) <= 1e-6, "smooth:endpoint-moved",
+                lambda: f"{what}: ends {Q[0][0]} {Q[-1][0]} want {P[0][0]} {P[-1][0]}", "smooth-branch:endpoint-moved")
+        R.outcome("smooth", param, sum(1 for a, b in zip(P, Q) if a[0] != b[0]))
+        return
+    if op != "lin" and len(Q) == 1 and P[0][0] == P[-1][0]:
+        # a whole zero-length branch collapses to one node at that point: both end points are there
+        R.note("iso:zero-length-branch-collapsed")
+        f = judge_branch(P, Q + Q, op, param)
+    else:
+        # lin, as worded: n points, end points unchanged (the interior is the arc-length rule of the first sentence)
+        f = judge_branch(P, Q, op, param)
+    for kindf, detail in f[:1]:
+        R.fail(kindf, f"{what}: {detail}", f"branch-{op}:{kindf}")
+    R.outcome(op, param, len(Q))
+
+
 def check_branch(case, R):
     from swcgeom.transforms import BranchConvSmoother, BranchLinearResampler
     from swcgeom.transforms.branch import BranchIsometricResampler
@@ -424,52 +480,154 @@ def check_branch(case, R):
         return
     P = read_branch(br)
     R.check(all(ref.dist(a[0], q) == 0 for a, q in zip(P, pos)), "harness:branch-readback", f"{ctx}: {P} vs {pos}")
+    kept = []
 
     for m in cfg["lin"]:
-        ok, res = call(R, "BranchLinearResampler", zero, f"n_nodes={m} {ctx}", lambda: BranchLinearResampler(m)(br))
-        if not ok:
-            continue
-        Q = read_branch(res)
-        # as worded: n points, end points unchanged; (the interior is the arc-length rule of the first sentence)
-        f = judge_branch(P, Q, "lin", m)
-        for kindf, detail in f[:1]:
-            R.fail(kindf, f"BranchLinearResampler({m}) {ctx}: {detail}", f"branch-linear:{kindf}")
-        R.outcome("lin", m, len(Q))
+        what = f"BranchLinearResampler({m}) {ctx}"
+        ok, res = call(R, "BranchLinearResampler", zero, what, lambda: BranchLinearResampler(m)(br), kept)
+        if ok:
+            judge_branch_op(R, "lin", m, P, res, what)
     for d in cfg["iso"]:
         for adjust in (True, False):
             mode = "iso" if adjust else "iso-nogap"
-            ok, res = call(R, f"BranchIsometricResampler[{mode}]", zero, f"distance={d} {ctx}",
-                           lambda: BranchIsometricResampler(d, adjust_last_gap=adjust)(br))
-            if not ok:
-                continue
-            Q = read_branch(res)
-            if len(Q) == 1 and P[0][0] == P[-1][0]:
-                # a whole zero-length branch collapses to one node at that point: both end points are there
-                R.note("iso:zero-length-branch-collapsed")
-                f = judge_branch(P, Q + Q, mode, d)
-            else:
-                f = judge_branch(P, Q, mode, d)
-            for kindf, detail in f[:1]:
-                R.fail(kindf, f"BranchIsometricResampler({d}, adjust_last_gap={adjust}) {ctx}: {detail}", f"branch-{mode}:{kindf}")
-            R.outcome(mode, d, len(Q))
-    ids = [int(i) for i in br.id().tolist()]
-    pids = [int(i) for i in br.pid().tolist()]
+            what = f"BranchIsometricResampler({d}, adjust_last_gap={adjust}) {ctx}"
+            ok, res = call(R, f"BranchIsometricResampler[{mode}]", zero, what, lambda: BranchIsometricResampler(d, adjust_last_gap=adjust)(br), kept)
+            if ok:
+                judge_branch_op(R, mode, d, P, res, what)
     for w in cfg["win"]:
         what = f"BranchConvSmoother({w}) {ctx}"
-        ok, res = call(R, "BranchConvSmoother", zero, what, lambda: BranchConvSmoother(w)(br))
-        if not ok:
-            continue
-        Q = read_branch(res)
-        if not R.check(len(Q) == len(P), "smooth:node-count", f"{what}: {len(P)} -> {len(Q)}", "smooth-branch:node-count"):
-            continue
-        R.check([int(i) for i in res.id().tolist()] == ids and [int(i) for i in res.pid().tolist()] == pids, "smooth:connectivity",
-                lambda: f"{what}: id/pid {res.id().tolist()} {res.pid().tolist()}", "smooth-branch:connectivity")
-        R.check(all(abs(a[1] - b[1]) <= 1e-6 for a, b in zip(P, Q)), "smooth:radii", lambda: f"{what}: radii {[b[1] for b in Q]}", "smooth-branch:radii")
-        R.check(ref.dist(P[0][0], Q[0][0]) <= 1e-6 and ref.dist(P[-1][0], Q[-1][0]) <= 1e-6, "smooth:endpoint-moved",
-                lambda: f"{what}: ends {Q[0][0]} {Q[-1][0]} want {P[0][0]} {P[-1][0]}", "smooth-branch:endpoint-moved")
-        R.outcome("smooth", w, sum(1 for a, b in zip(P, Q) if a[0] != b[0]))
+        ok, res = call(R, "BranchConvSmoother", zero, what, lambda: BranchConvSmoother(w)(br), kept)
+        if ok:
+            judge_branch_op(R, "smooth", w, P, res, what)
     # the input branch is what it was
     R.check(read_branch(br) == P, "input-modified", f"{ctx}", "branch:input-modified")
+    recheck_kept(R, kept)
+
+
+# ------------------------------------------------------------------ call histories (one transform instance, several inputs)
+
+TREE_INSTANCES = ("iso(1.0)", "iso(0.4,nogap)", "lin(3)", "smooth(3)", "assembler")
+BRANCH_INSTANCES = ("lin(3)", "iso(1.0)", "smooth(3)")
+
+
+def history_tree_pool(nmax):
+    """Small fixed pool of (p, lens, bank): every sorted tree up to nmax nodes, one mixed and one zero-first length vector."""
+    out = [((-1,), (), "generic")]
+    mixed = (0.5, 2.3, 1.0, 1.0, 0.5)
+    zerof = (0.0, 2.3, 1.0, 0.5, 1.0)
+    for n in range(2, nmax + 1):
+        for p in S.sorted_trees(n):
+            out.append((p, mixed[: n - 1], "generic"))
+            out.append((p, zerof[: n - 1], "lattice"))
+    return out
+
+
+def check_history_tree(case, R):
+    """One transform instance applied to A, B(, C), then A again, then A edited in place: every result is judged when
+    returned, the earlier results are re-judged after the later calls."""
+    from swcgeom.core import BranchTree
+    from swcgeom.transforms import BranchLinearResampler, BranchTreeAssembler, IsometricResampler, TreeSmoother
+    from swcgeom.transforms.tree import Resampler
+
+    kind, seq = case[0], [(list(c[0]), list(c[1]), c[2]) for c in case[1]]
+    R.state(kind, seq)
+    if kind == "iso(1.0)":
+        inst, mode, param = IsometricResampler(1.0), "iso", 1.0
+    elif kind == "iso(0.4,nogap)":
+        inst, mode, param = IsometricResampler(0.4, adjust_last_gap=False), "iso-nogap", 0.4
+    elif kind == "lin(3)":
+        inst, mode, param = Resampler(BranchLinearResampler(3)), "lin", 3
+    elif kind == "smooth(3)":
+        inst, mode, param = TreeSmoother(3), "smooth", 3
+    else:
+        asm = BranchTreeAssembler()
+        inst, mode, param = (lambda t: asm(BranchTree.from_tree(t))), "id", None
+    klass = {"iso": "iso", "iso-nogap": "iso-nogap", "lin": "lin", "id": "identity", "smooth": "smooth"}[mode]
+
+    def judge(nm, p, pts, t, res):
+        if mode == "smooth":
+            judge_smooth_tree(R, nm, p, pts, t, res)
+        else:
+            judge_tree(R, nm, klass, p, pts, res, mode, param)
+
+    trees = []
+    for p, lens, bank in seq:
+        t = mk_tree(p, layout(p, lens, bank), 1)
+        trees.append((p, lens, bank, t, read_tree(t)[1]))
+    live = []
+    order = list(range(len(trees))) + [0]
+    for step, k in enumerate(order):
+        p, lens, bank, t, pts = trees[k]
+        nm = f"history[{kind}] call {step + 1} of {len(order) + 1} on p={p} lens={lens} bank={bank} (inputs so far: {[trees[j][0] for j in order[:step]]})"
+        ok, res = call(R, f"history:{klass}", "", nm, lambda: inst(t))
+        if ok:
+            judge(nm, p, pts, t, res)
+            live.append((nm, p, pts, t, res, content(res)))
+    for nm, p, pts, t, res, snap in live[:-1]:
+        if not R.check(content(res) == snap, "result-changed-by-later-calls", f"{nm}: result changed after later calls of the same instance",
+                       "history:result-changed-by-later-calls"):
+            judge(nm + " [re-judged after later calls]", p, pts, t, res)
+    if len(live) == len(order):
+        R.note("history:repeat-call-identical", int(content(live[0][4]) == content(live[-1][4])))
+    # edit the first input in place (move its last node, change its radius): the same instance must describe the new content
+    p, lens, bank, t, _ = trees[0]
+    n = len(p)
+    t.ndata["x"][n - 1] += 0.75
+    t.ndata["y"][n - 1] -= 0.5
+    t.ndata["r"][n - 1] += 0.375
+    pts2 = read_tree(t)[1]
+    nm = f"history[{kind}] call on p={p} lens={lens} bank={bank} after moving node {n - 1} in place to {pts2[n - 1]}"
+    ok, res = call(R, f"history:{klass}", "", nm, lambda: inst(t))
+    if ok:
+        judge(nm, p, pts2, t, res)
+    R.retain(f"history[{kind}]", lambda v=live[0][4] if live else None: content(v) if v is not None else None)
+
+
+def history_branch_pool(mmax):
+    out = []
+    for m in range(2, mmax + 1):
+        for lens in itertools.product(LENGTHS if m <= 3 else (0.0, 1.0, 2.3), repeat=m - 1):
+            for kind in ("xyzr32", "tree"):
+                out.append((lens, "generic" if sum(1 for v in lens if v == 0) % 2 == 0 else "lattice", kind))
+    return out
+
+
+def check_history_branch(case, R):
+    from swcgeom.transforms import BranchConvSmoother, BranchLinearResampler
+    from swcgeom.transforms.branch import BranchIsometricResampler
+
+    kind, seq = case[0], [(list(c[0]), c[1], c[2]) for c in case[1]]
+    R.state(kind, seq)
+    inst, op, param = {"lin(3)": (BranchLinearResampler(3), "lin", 3), "iso(1.0)": (BranchIsometricResampler(1.0), "iso", 1.0),
+                       "smooth(3)": (BranchConvSmoother(3), "smooth", 3)}[kind]
+    brs = []
+    for lens, bank, src in seq:
+        pos = polyline(lens, bank)
+        br = make_branch(src, pos, [RADII[(i + 1) % len(RADII)] for i in range(len(pos))])
+        brs.append((lens, bank, src, br, read_branch(br)))
+    live = []
+    order = list(range(len(brs))) + [0]
+    for step, k in enumerate(order):
+        lens, bank, src, br, P = brs[k]
+        nm = f"history[{kind}] call {step + 1} on lens={lens} bank={bank} source={src} (inputs so far: {[brs[j][0] for j in order[:step]]})"
+        ok, res = call(R, f"history:branch-{op}", "", nm, lambda: inst(br))
+        if ok:
+            judge_branch_op(R, op, param, P, res, nm)
+            live.append((nm, P, res, content(res)))
+    for nm, P, res, snap in live[:-1]:
+        if not R.check(content(res) == snap, "result-changed-by-later-calls", f"{nm}: result changed after later calls of the same instance",
+                       "history:branch-result-changed-by-later-calls"):
+            judge_branch_op(R, op, param, P, res, nm + " [re-judged after later calls]")
+    lens, bank, src, br, _ = brs[0]
+    last = int(br.idx[-1])
+    br.attach.ndata["x"][last] += 0.75
+    br.attach.ndata["z"][last] -= 0.5
+    br.attach.ndata["r"][last] += 0.375
+    P2 = read_branch(br)
+    nm = f"history[{kind}] call on lens={lens} bank={bank} source={src} after moving its last node in place to {P2[-1]}"
+    ok, res = call(R, f"history:branch-{op}", "", nm, lambda: inst(br))
+    if ok:
+        judge_branch_op(R, op, param, P2, res, nm)
 
 
 # ------------------------------------------------------------------ spaces
@@ -478,7 +636,7 @@ def check_branch(case, R):
 def spaces(tier, seed):
     q = tier == "quick"
     st_hi = 5 if q else 6
-    lt_hi = 4 if q else 5
+    lt_hi = 5
     pl_hi = 4 if q else 6
     banks = ("lattice", "generic")
     tg = "q" if q else "t"
@@ -501,7 +659,7 @@ def spaces(tier, seed):
             for p in S.labelled_trees(n):
                 if ref.is_sorted(p):
                     continue
-                for lens in itertools.product(LENGTHS if n <= 4 else (0.0, 1.0, 2.3), repeat=n - 1):
+                for lens in itertools.product(LENGTHS if n <= 4 else ((0.0, 1.0) if q else (0.0, 1.0, 2.3)), repeat=n - 1):
                     yield (p, lens, "generic", "l")
 
     def gen_branches():
@@ -511,8 +669,40 @@ def spaces(tier, seed):
                     for kind in ("xyzr32", "xyzr64", "tree"):
                         yield (lens, bank, kind, tg)
 
+    tpool = history_tree_pool(4 if q else 5)
+    tpool3 = history_tree_pool(3)
+    bpool = history_branch_pool(3 if q else 4)
+    bpool3 = history_branch_pool(2)
+
+    def gen_history_tree():
+        for kind in TREE_INSTANCES:
+            for a in tpool:
+                for b in tpool:
+                    yield (kind, (a, b))
+        if not q:
+            for kind in TREE_INSTANCES:
+                for tr in itertools.product(tpool3, repeat=3):
+                    yield (kind, tr)
+
+    def gen_history_branch():
+        for kind in BRANCH_INSTANCES:
+            for a in bpool:
+                for b in bpool:
+                    yield (kind, (a, b))
+        if not q:
+            for kind in BRANCH_INSTANCES:
+                for tr in itertools.product(bpool3, repeat=3):
+                    yield (kind, tr)
+
     bm = BRANCH_MENUS[tg]
     return [
+        Space.of("history-branch", gen_history_branch, check_history_branch,
+                 bounds={"instances": list(BRANCH_INSTANCES), "pool": len(bpool), "sequences": "every ordered pair of pool inputs (A, B): A, B, A again, "
+                         "A edited in place" + ("" if q else f"; every ordered triple of the {len(bpool3)} two-point inputs")}),
+        Space.of("history-tree", gen_history_tree, check_history_tree,
+                 bounds={"instances": list(TREE_INSTANCES), "pool": len(tpool), "pool_rule": "every sorted tree up to "
+                         f"{4 if q else 5} nodes x {{mixed lengths on the generic bank, zero-first lengths on the lattice bank}}",
+                         "sequences": "every ordered pair (A, B): A, B, A again, A edited in place" + ("" if q else f"; every ordered triple of the {len(tpool3)} trees up to 3 nodes")}),
         Space.of("branch-transforms", gen_branches, check_branch,
                  bounds={"polyline_points": [2, pl_hi], "segment_lengths": list(LENGTHS), "direction_banks": list(banks),
                          "sources": ["from_xyzr float32", "from_xyzr float64", "attached tree branch"],
@@ -521,7 +711,7 @@ def spaces(tier, seed):
                  bounds={"ST_max_nodes": st_hi, "LT_unsorted_max_nodes": lt_hi, "edge_lengths": list(LENGTHS),
                          "direction_banks": "both for n <= 4" + ("; n = 5: one per tree, alternating with the parent table" if q else
                                                                  " and n = 5; n = 6: one per tree, alternating with the parent table"),
-                         "LT_edge_lengths": "full alphabet for n <= 4, {0, 1, 2.3} for n = 5",
+                         "LT_edge_lengths": "full alphabet for n <= 4; n = 5: " + ("{0, 1}" if q else "{0, 1, 2.3}"),
                          "menus (root type -> operations)": {k: [[rt, {kk: list(vv) for kk, vv in ops.items()}] for rt, ops in MENUS[k]]
                                                              for k in (("q", "l") if q else ("t", "t6", "l"))}}),
     ]
